@@ -174,14 +174,13 @@ Proof.
 Qed.
 
 (* ---------- the allow filter is exactly the projection ---------- *)
-Theorem allow_exact : forall L d,
-  nonempty_paths L -> prefix_free L -> wfj (JObj d) = true ->
+(* for ANY allow dictionary whose leaves are exactly the paths of L *)
+Theorem allow_exact_tree : forall w L d,
+  (forall l, leaf_of w l = true <-> In l L) -> wfj (JObj d) = true ->
   forall p, p <> [] ->
-  allow_exact_at L (JObj d) (JObj (allow_filter (build_allow L) d)) p.
+  allow_exact_at L (JObj d) (JObj (allow_filter w d)) p.
 Proof.
-  intros L d Hne Hpf Hwf p Hp.
-  set (w := build_allow L).
-  assert (HL : forall l, leaf_of w l = true <-> In l L) by (apply build_allow_leaves; assumption).
+  intros w L d HL Hwf p Hp.
   assert (Hgp : get_path (JObj (allow_filter w d)) p = tspec w (JObj d) p).
   { rewrite <- prune_obj_shape. apply prune_gp. exact Hwf. }
   unfold allow_exact_at. split.
@@ -230,4 +229,13 @@ Proof.
     + cbv beta iota. split; [split; [discriminate|]|discriminate].
       intros [l [Hin [Hs Hpr]]]. apply HL in Hin.
       destruct (leaf_below p w l Hin Hs) as [s [l' [_ [Hst _]]]]. congruence.
+Qed.
+
+Theorem allow_exact : forall L d,
+  nonempty_paths L -> prefix_free L -> wfj (JObj d) = true ->
+  forall p, p <> [] ->
+  allow_exact_at L (JObj d) (JObj (allow_filter (build_allow L) d)) p.
+Proof.
+  intros L d Hne Hpf Hwf p Hp. apply allow_exact_tree; [|exact Hwf|exact Hp].
+  apply build_allow_leaves; assumption.
 Qed.
